@@ -1,4 +1,4 @@
-HOOK_COMMITS = ["74bf6ff", "82c1591", "9aba3ab"]
+HOOK_COMMITS = ["74bf6ff", "82c1591", "9aba3ab", "7b80cf4"]
 
 ALL = ["C%02d" % i for i in range(1, 21)]
 
@@ -14,7 +14,18 @@ MAINT_NOTE = ("Trusted: Coq kernel; extraction; OCaml replayer; Go harness; the 
               "everything else rests on the closed-loop correspondence (every deque, counter and bucket after every operation) and the view oracles.")
 MAINT_TECH = "Coq proof (loop-step lemmas, invariants) over an executable policy/wheel model + closed-loop model/implementation replay with internal-state audit"
 
+LOAD_NOTE = ("Trusted: Coq kernel, extraction, OCaml replayer, Go harness with a gated loader. The protocol model's steps are the code's atomic sections (one hashmap.Compute each); their atomicity is C15's business and is "
+             "assumed here. Bulk loads are covered sequentially (C10) and not by the protocol engine.")
+LOAD_TECH = "Coq proof: invariant by induction over all event sequences of a protocol model + scripted interleavings executed on the implementation with a gated loader"
+
 TEXTS = {
+    "C08": dict(text="Coq theorems over the single-flight protocol model (any number of threads and keys, every event order): loader intervals for one key never overlap unless a write/invalidation/eviction superseded the older call; "
+                     "a caller that finds a registered call joins it; every waiter is released by its call's finish for every outcome including panic; no in-flight record survives. Tied to the code by executing scripted interleavings "
+                     "with a gated loader and comparing joins, loader starts, releases and values with the model after every step.",
+               design_ref="DESIGN.md section 5, C08", note=LOAD_NOTE, technique=LOAD_TECH),
+    "C09": dict(text="Coq theorems: registered calls are exactly the pending unsuperseded ones; a value is installed only by a never-superseded call; a superseded load changes nothing; explicit writes/invalidations always take effect. "
+                     "Engine: writes and invalidations placed before the loader starts, while it runs, and after it returned, for Get and Refresh; the cache's value is compared with the model after every step.",
+               design_ref="DESIGN.md section 5, C09", note=LOAD_NOTE, technique=LOAD_TECH),
     "C15": dict(text="Coq theorem: the SWAR search (markZeroBytes over meta xor broadcast(h2)) marks every matching byte of every 64-bit word, so a bound key's slot is always visited. Executable Coq model of the "
                      "table (meta words, chains, grow/shrink/clear, per-table seeds) compared call by call with the implementation: results, update-function invocations and arguments, size, table length, per-bucket "
                      "layout and exact iteration order. Concurrent lookups/updates/iteration during resizes are checked by implementation oracles (stable keys always found, counters exact, iteration yields each stable key once). "
